@@ -163,13 +163,16 @@ func (c *clientApp) init() (err error) {
 		return
 	}
 
-	// Configure the file store to be scanned
+	// Configure the file store to be scanned.  The store appends to its ignore
+	// list (standard ignores, patterns of non-HTTP tags), so it gets its own
+	// copy: sources that inherit the option share one slice, spare capacity
+	// included, and would overwrite each other's additions.
 	store := &store.Local{
 		Root:           filepath.Clean(c.conf.OutDir),
 		MinAge:         c.conf.MinAge,
 		IncludeHidden:  c.conf.IncludeHidden,
 		Include:        c.conf.Include,
-		Ignore:         c.conf.Ignore,
+		Ignore:         append([]*regexp.Regexp{}, c.conf.Ignore...),
 		FollowSymlinks: c.dirOutFollow,
 	}
 	store.AddStandardIgnore()
